@@ -951,7 +951,9 @@ def outcome(f):
     try:
         return ("ok", f())
     except (pe.TealInputError, pe.TealCompileError, pe.TealTypeError, pe.TealInternalError, SessionBoom) as e:
-        return ("err", f"{type(e).__name__}: {str(e)[:200]}")
+        # the property is about the TEAL a compilation yields; of a refusal only the kind is compared (the wording may
+        # name whichever of several offending slots a set happened to yield first)
+        return ("err", f"{type(e).__name__}")
 
 
 def run_target(pt, t) -> dict:
@@ -1039,8 +1041,8 @@ def run_target(pt, t) -> dict:
         def build():
             U = pt.TealType.uint64
 
-            def body(n, other):
-                req = [pt.ScratchVar(U, i) for i in t["ids"]]
+            def body(n, other, shift=0):
+                req = [pt.ScratchVar(U, i + shift) for i in t["ids"]]
                 au = [pt.ScratchVar(U) for _ in range(t["autos"])]
                 allv = req + au
                 total = pt.Int(0)
@@ -1055,7 +1057,7 @@ def run_target(pt, t) -> dict:
 
             @pt.Subroutine(U)
             def walk2(n):
-                return body(n, walk)
+                return body(n, walk, 1)     # its own requested ids (one above the other routine's)
             return pt.Return(walk(pt.Int(3)))
         kw = {}
         if t["frame_pointers"] is not None and t["version"] >= 8:
